@@ -68,6 +68,10 @@ func init() {
 		Old: "\tres.lock.Lock()\n\tres.state = state\n\tres.lock.Unlock()\n", New: "\tres.lock.Lock()\n\tres.state = state\n\ttime.Sleep(res.pullInterval)\n\tres.lock.Unlock()\n", Expect: "setState"})
 	seed(Seed{Name: "fd-dial-under-state-lock", Prop: "C19", Rule: "FD-LOCK-SHORT", File: res + "fd.go",
 		Old: "func (res *SingleFailureDetector) ensureClient() error {\n", New: "func (res *SingleFailureDetector) ensureClient() error {\n\tres.lock.Lock()\n\tdefer res.lock.Unlock()\n", Expect: "ensureClient"})
+	seed(Seed{Name: "either-arm-fixed", Prop: "C10", Rule: "FC-IDS", File: "systems/pbkvs/pbkvs.go",
+		Old: "switch iface.NextFairnessCounter(\"AReplica.replicaLoop.0\", 2) {", New: "switch uint(0) {", Expect: "asks-the-oracle"})
+	seed(Seed{Name: "with-takes-first-member", Prop: "C10", Rule: "FC-IDS", File: "systems/nestedcrdtimpl/NestedCRDTImpl.go",
+		Old: "targetRead0.SelectElement(iface.NextFairnessCounter(\"ACRDTResource.receiveReq.1\", uint(targetRead0.AsSet().Len())))", New: "targetRead0.SelectElement(0)", Expect: "asks-the-oracle"})
 	seed(Seed{Name: "merge-second-loop-reuses-iterator", Prop: "C12", Rule: "ITER-FRESH", File: res + "aworset.go",
 		Old: "\ti = remK.Iterator()\n", New: "", Expect: "AWORSet.Merge"})
 }
